@@ -164,7 +164,15 @@ def mutate_attr(
     # If not inplace, copy before writing new value for attribute
     if not (inplace or metadata and metadata.do_not_copy):
         obj = copy.deepcopy(obj)
+        # The copy is ours to edit (even if frozen) until we hand it back;
+        # descriptors and invalidation below go through the public protocol.
+        with thawed(obj):
+            return _mutate_attr_inplace(obj, attr, value, metadata, skip_invalidation)
 
+    return _mutate_attr_inplace(obj, attr, value, metadata, skip_invalidation)
+
+
+def _mutate_attr_inplace(obj, attr, value, metadata, skip_invalidation):
     # Perform actual mutation
     try:
         getattr(obj.__setattr__, "__raw__", setattr)(obj, attr, value)
